@@ -8,7 +8,7 @@ import re
 from ..core import Ctx, RuleResult, finding, short, walk_no_nested
 from ..model import AnalysisError, norm
 from ..mutants import Mut
-from ..rules import accum, loopfresh, fwd, dim, fresh, kind, posbound
+from ..rules import accum, loopfresh, fwd, dim, fresh, kind, posbound, runpos
 from ..rules.defuse import DefUse
 from ..rules.util import callee_name, calls_in, cfg_of, lin_str, linear, nodes_where
 from ..tables import C01_DIM_EXCEPTIONS
@@ -28,6 +28,7 @@ EXPLANATION = (
     " Round-4 triage: (17) widget text is cut into lines at the layout's separator only - no str.splitlines() in the widget / layout / canvas layers; split()/count() in a measurement use the newline constant of the layout. Round 5: (18) Frame.render cuts each part with its own trim; (19) SHADOW - no loop target clobbers a live local (the rule that found the resize() defect of vterm, applied to all widget modules); (20) every CompositeCanvas method that cuts rows / columns away drops a cursor left outside."
     ' (21) NONNEG: the position given to CanvasOverlay() / overlay() is clamped at 0 wherever the calling function itself treats it as possibly negative (fix a7d4a9b: Overlay with a packed top widget wider than the screen gave rows of 9, 11, 9 columns).'
     ' (22) SIB: every inversion of a relative size (child * 100 / percent) in the widget layer rounds to the nearest cell, so pack() and the padding computation of render() agree on the total (fix b429ef1: Padding.pack(()) == (17, 1) but render(()).cols() == 16).'
+    ' (23) RUNPOS: every (value, length) run written by hand into a canvas (ProgressBar.render -> _attr / _cs) has a length that the dominating tests show positive - linear atoms from the tests, entailment of L > 0 (fix 31a962b: [(complete, 0), (normal, maxcol)] made content() yield an empty row).'
 )
 NOT_DECIDED = (
     "That composed canvases actually have the requested size for all trees/sizes/texts (value semantics of shards, layout and padding); truthfulness of sizing(); wide-character column "
@@ -496,6 +497,7 @@ def run(ctx: Ctx):
         rule_trim_drops_cursor(ctx),
         rule_overlay_position(ctx),
         rule_inverse_percent(ctx),
+        runpos.run_runpos(ctx.p, "C01.23", ("urwid.widget",), floor=7),
     ]
 
 
@@ -504,6 +506,10 @@ _COLS = "urwid/widget/columns.py"
 _CANV = "urwid/canvas.py"
 _TEXT = "urwid/widget/text.py"
 MUTANTS = [
+    Mut("progressbar-empty-complete-run", "urwid/widget/progress_bar.py", "ProgressBar.render", "        elif ccol == 0:\n            # less than one column complete and no room for the smoothing character: no (empty) complete run\n            c._attr = [[(self.normal, maxcol)]]\n", "", "RUNPOS|widget.progress_bar.ProgressBar.render|run length ccol not shown positive"),
+    Mut("progressbar-smooth-unguarded-run", "urwid/widget/progress_bar.py", "ProgressBar.render", "            if ccol > 0:\n                a.append((self.complete, ccol))\n", "            a.append((self.complete, ccol))\n", "RUNPOS|widget.progress_bar.ProgressBar.render|run length ccol not shown positive"),
+    Mut("progressbar-full-test-off-by-one", "urwid/widget/progress_bar.py", "ProgressBar.render", "        elif ccol >= maxcol:", "        elif ccol > maxcol:", "RUNPOS|widget.progress_bar.ProgressBar.render|run length maxcol - ccol not shown positive"),
+    Mut("twin-progressbar-positive-test", "urwid/widget/progress_bar.py", "ProgressBar.render", "        elif ccol == 0:\n", "        elif not ccol > 0:\n", twin=True),
     Mut("padding-relative-total-floored", "urwid/widget/padding.py", "Padding.padding_values", "max(int(self._original_widget.pack((), focus=focus)[0] * 100 / self._width_amount + 0.5), self.min_width or 1)", "max(self._original_widget.pack((), focus=focus)[0] * 100 // self._width_amount, self.min_width or 1)", "SIB|widget.padding.Padding.padding_values|inverse percent not rounded to nearest"),
     Mut("overlay-pack-relative-truncated", "urwid/widget/overlay.py", "Overlay.pack", "            cols = int(w_cols * 100 / self.width_amount + 0.5)", "            cols = int(w_cols * 100 / self.width_amount)", "SIB|widget.overlay.Overlay.pack|inverse percent not rounded to nearest"),
     Mut("overlay-negative-left-position", "urwid/widget/overlay.py", "Overlay.render", "        return CanvasOverlay(top_c, bottom_c, max(0, left), max(0, top))", "        return CanvasOverlay(top_c, bottom_c, left, top)", "NONNEG|widget.overlay.Overlay.render|possibly negative left as overlay position"),
